@@ -181,6 +181,8 @@ func (o *Options) populateFilter(c *cli.Context) error {
 }
 
 func (o *Options) populateReporter(c *cli.Context) {
+	// dates are printed in the format they are read in
+	o.ReporterConfig.DateFormat = o.GlobalConfig.DateFormat
 	for i := len(c.Lineage()) - 1; i >= 0; i-- {
 		if c.Lineage()[i].IsSet("csv") {
 			o.ReporterConfig.CSV = true
